@@ -29,7 +29,7 @@ MEM = "impls::memory::MemoryFS"
 TWO_PATH_OPS = ("copy_file", "move_file", "move_dir")
 
 
-def table_m(facts, rep, rule_guard, rule_kind, self_ty=MEM, trait="FileSystem", ops_filter=None):
+def table_m(facts, rep, rule_guard, rule_kind, self_ty=MEM, trait="FileSystem", ops_filter=None, atomic=False):
     """Table M obligations; returns dict op -> set of guard letters found (for C02)"""
     mm = MemoryModel(facts, self_ty, trait)
     found = {}
@@ -134,6 +134,14 @@ def table_m(facts, rep, rule_guard, rule_kind, self_ty=MEM, trait="FileSystem", 
             # opening for append leaves the stored entry as it is until the writer publishes (the only change a hand-out
             # operation may make is the documented access-time bump of open_file)
             touched = [(fld, line) for cb, bb, fld, line, base in mm.field_writes(b)] + [(sh, line) for cb, bb, sh, key, line in muts]
+            # ... nor through another mutating operation of the backend (create_file replaces the entry: new time stamps, and
+            # whatever was appended by somebody else in between is gone)
+            for cb in mm.inter.code_bodies(b):
+                for s_ in mm.inter.sites(cb):
+                    if s_.trait and s_.trait.rsplit("::", 1)[-1] in ("FileSystem", "AsyncFileSystem") and \
+                            s_.name in ("create_file", "create_dir", "remove_file", "remove_dir", "copy_file", "move_file", "move_dir",
+                                        "set_creation_time", "set_modification_time", "set_access_time"):
+                        touched.append(("call " + s_.name, s_.line))
             n += 1
             rep.ob(rule_guard, b.id, "append_file: the stored entry is not modified", not touched,
                    "" if not touched else "append_file writes %s of the stored entry: until the writer is dropped every other call sees "
@@ -185,6 +193,16 @@ def table_m(facts, rep, rule_guard, rule_kind, self_ty=MEM, trait="FileSystem", 
                            "the native %s adds entries at the destination without establishing that %s: the path layer only "
                            "checks !destination.exists() before this fast path, so entries end up below a file / a missing parent" % (op, nm), line)
                 need(op, b, cb, bb, line, "insert", ["E", "D" if op == "move_dir" else "F"], sh)
+                if atomic and norm(key) == norm(dkey):
+                    # (C16 only) the path layer's !destination.exists() is a separate call: what it saw may be gone by now, so
+                    # the entry at the destination is inserted only if the destination is vacant *in this critical section*
+                    okv = gv.vacant(dkey)
+                    n += 1
+                    rep.ob(rule_guard, b.id, "%s: %s guarded by 'destination vacant'" % (op, sh), okv,
+                           "holds on every path to the site" if okv else
+                           "the native %s inserts at the destination without testing, under its own lock, that nothing is there: an entry "
+                           "created between the path layer's exists() and this call is replaced (a directory turns into a file with its "
+                           "children still stored below it) while both calls report success" % op, line)
         # missing target -> FileNotFound
         if op in ("append_file", "open_file", "read_dir", "remove_file", "metadata", "set_creation_time",
                   "set_modification_time", "set_access_time"):
@@ -266,6 +284,9 @@ def run(facts, rep, tier, ctx):
         # a failed overlay removal must leave the union unchanged: marker only after the upper copy is gone
         from . import c10
         c10.marker_rules(facts, rep, ws, prefix="R01.5m", only=("R10.1", "R10.3"))
+        # every path the overlay builds on a layer is relative to that layer (an absolute join leaves a layer that is a
+        # sub-directory of a filesystem: markers and copies land outside it and the removals they record do not take effect)
+        c09.relative_join_rules(facts, rep, ws, rule="R01.5j")
     except ImportError:
         rep.note("adapter rules (C07/C09) not available yet")
     # the async port: its path type, memory/physical backends and adapters are separate copies of the same contracts
@@ -285,7 +306,7 @@ def run(facts, rep, tier, ctx):
         from . import c07, c09, c10
         k5 = c07.delegation(facts, A, wa, rule="R01.5") + c09.table_u(facts, A, wa, rule="R01.5") + \
             c09.materialisation_rules(facts, A, wa, rule="R01.5p") + c09.listing_rules(facts, A, wa, rule="R01.5l") + \
-            c10.marker_rules(facts, A, wa, prefix="R01.5m", only=("R10.1", "R10.3"))
+            c10.marker_rules(facts, A, wa, prefix="R01.5m", only=("R10.1", "R10.3")) + c09.relative_join_rules(facts, A, wa, rule="R01.5j")
         rep.floor("async-world contract obligations", k + k2 + k3 + k4 + k5, 150)
     rep.assume("Table O (what the OS enforces per std call) is frozen from POSIX/Linux semantics")
     rep.assume("a writer's flush is not a primitive of this property's domain (touching a path while a handle is open is excluded)")
